@@ -44,6 +44,9 @@ Verdict(ev) ==
          ELSE IF ~Unique(want) THEN (IF ev.obs.k = "err" /\ ev.obs.cat \in {"init_nonunique", "init"} THEN "ok" ELSE "duplicates_not_rejected")
          ELSE IF IsHierRoute(ev.route) /\ ~TreeOrdered(RowsOf(want)) THEN (IF ev.obs.k = "err" /\ ev.obs.cat \in {"init_nonunique", "init"} THEN "ok" ELSE "non_tree_not_rejected")
          ELSE ObsVerdict(want, ev.obs)
+    (* twin: one public call made on a grow-only container that reached its labels through a history (reads, appends, no read at the end) and on a   *)
+    (* twin built at once from the same labels; Value(ix) - the label sequence - is the whole state of the model, so the two observables coincide     *)
+    [] ev.kind = "twin" -> IF ev.stale = ev.fresh THEN "ok" ELSE "observable_depends_on_history"
     [] ev.kind = "setop" ->
          LET want == CASE ev.route = "union" -> ev.src \o ev.other
                        [] ev.route = "intersection" -> SelectSeq(ev.src, LAMBDA x : Member(ev.other, x))
